@@ -324,7 +324,9 @@ func (g *Gen) localLookup(name string, st *State) *SV {
 	}
 	t, ok := st.cells[a]
 	if !ok {
-		return nil
+		// declared on another path: not yet assigned here, i.e. its zero value
+		et := a.Type().(*types.Pointer).Elem()
+		return &SV{S: g.zero(et), T: et}
 	}
 	return &SV{S: t, T: a.Type().(*types.Pointer).Elem()}
 }
@@ -450,6 +452,25 @@ func (g *Gen) run() {
 		g.declareConst(name, g.sortOf(fv.Type()))
 		g.vals[fv] = &SV{S: name, T: fv.Type()}
 		g.addFact(g.rangeFact(name, fv.Type()))
+		// a captured variable that is never reassigned after the closure is created is a constant
+		if pt, ok := fv.Type().Underlying().(*types.Pointer); ok && g.immutableCapture(fv) {
+			vn := "fvv." + sanitize(fv.Name())
+			g.declareConst(vn, g.sortOf(pt.Elem()))
+			g.addFact(g.rangeFact(vn, pt.Elem()))
+			g.addFact(g.allocBound(vn, pt.Elem(), "alloc!0"))
+			lv := &LVal{kind: lvConst, ref: vn, base: pt.Elem()}
+			g.vals[fv] = &SV{LV: lv, T: fv.Type()}
+			g.paramSV[fv.Name()] = &SV{S: vn, T: pt.Elem()}
+			continue
+		}
+		// a captured variable is reached through its address: in contracts its name denotes the value
+		if pt, ok := fv.Type().Underlying().(*types.Pointer); ok {
+			g.addFact("(> " + name + " 0)")
+			g.addFact("(<= " + name + " alloc!0)")
+			lv := &LVal{kind: lvHeap, ref: name, base: pt.Elem()}
+			g.touchKeys(lv)
+			g.paramSV[fv.Name()] = &SV{LV: lv, T: pt.Elem()}
+		}
 	}
 	g.entry = st.clone()
 	// requires
@@ -1243,4 +1264,52 @@ func (g *Gen) newRef(st *State, name string) string {
 	g.addFact("(= " + r + " (+ " + st.alloc + " 1))")
 	st.alloc = r
 	return r
+}
+
+// immutableCapture: the captured variable has a single store (its initialisation) in the
+// enclosing function and none in this closure.
+func (g *Gen) immutableCapture(fv *ssa.FreeVar) bool {
+	parent := g.fn.Parent()
+	if parent == nil {
+		return false
+	}
+	idx := -1
+	for i, f := range g.fn.FreeVars {
+		if f == fv {
+			idx = i
+		}
+	}
+	for _, r := range *fv.Referrers() {
+		if _, ok := r.(*ssa.Store); ok {
+			if r.(*ssa.Store).Addr == fv {
+				return false
+			}
+		}
+	}
+	for _, b := range parent.Blocks {
+		for _, in := range b.Instrs {
+			mc, ok := in.(*ssa.MakeClosure)
+			if !ok || mc.Fn != g.fn || idx >= len(mc.Bindings) {
+				continue
+			}
+			al, ok := mc.Bindings[idx].(*ssa.Alloc)
+			if !ok {
+				return false
+			}
+			stores := 0
+			for _, r := range *al.Referrers() {
+				switch r := r.(type) {
+				case *ssa.Store:
+					if r.Addr == al {
+						stores++
+					}
+				case *ssa.MakeClosure, *ssa.UnOp, *ssa.DebugRef:
+				default:
+					return false
+				}
+			}
+			return stores <= 1
+		}
+	}
+	return false
 }
